@@ -1,3 +1,214 @@
 import ScryerModel.Proofs.UGraph
+import ScryerModel.Proofs.UGraphClosure
+import ScryerModel.Proofs.UGraphTopSort
+/-!
+# C53 — Graph library results match graph-theoretic definitions
+
+Property theorems over `Model/UGraph.lean`, the clause-by-clause transcription of
+`src/lib/ugraphs.pl` (and of the `ordsets.pl` predicates it calls) for graphs whose vertices are
+natural numbers. A graph is read relationally through `vertices g` (its vertex list) and
+`Edge g x y`; `WF g` is the S-representation invariant (keys strictly ascending, neighbour lists
+strictly ascending, every neighbour a vertex). All theorems are for graphs of any size.
+
+`C53_canonical` says a well-formed graph is determined by its vertex set and edge relation, so
+"`WF` + vertices + edges" pins each result down exactly: this is why the correspondence run may
+compare results as text.
+
+Two library predicates are wrong on part of their documented input domain (see
+notes/findings/C53-1.md, C53-2.md). For them the theorem about the literal transcription is
+named `…_partial` and carries the extra hypothesis under which the library is right, an
+`example` shows the failure outside it, and the full-strength theorem is proved for the repaired
+algorithm (`delVerticesFixed`, `addVerticesFixed`), which is the patch proposed in the finding.
+-/
 namespace Scryer.UGraph
+open Relation
+
+/-- Canonical form: a well-formed S-representation is determined by its vertices and edges. -/
+theorem C53_canonical {g h : Graph} (hg : WF g) (hh : WF h)
+    (hv : ∀ v, v ∈ vertices g ↔ v ∈ vertices h) (he : ∀ x y, Edge g x y ↔ Edge h x y) : g = h :=
+  graph_ext hg.keys hh.keys hg.nbrs hh.nbrs hv he
+
+/-- `vertices/2` lists exactly the keys. -/
+theorem C53_vertices (g : Graph) (v : Nat) : v ∈ vertices g ↔ ∃ ns, (v, ns) ∈ g := mem_vertices
+
+/-- `edges/2` lists exactly the edges, in standard order without duplicates. -/
+theorem C53_edges {g : Graph} (hg : WF g) :
+    (∀ x y, (x, y) ∈ edges g ↔ Edge g x y) ∧ (edges g).Pairwise EdgeLt :=
+  ⟨fun _ _ => mem_edges, sorted_edges hg.keys hg.nbrs⟩
+
+/-- `vertices_edges_to_ugraph/3` on ARBITRARY lists (unsorted, with duplicates): the result is
+    well-formed, its vertices are the listed ones plus all edge endpoints, its edges the listed ones. -/
+theorem C53_vertices_edges_to_ugraph (vs : List Nat) (es : List (Nat × Nat)) :
+    WF (verticesEdgesToUgraph vs es) ∧
+    (∀ v, v ∈ vertices (verticesEdgesToUgraph vs es) ↔ v ∈ vs ∨ ∃ e ∈ es, v = e.1 ∨ v = e.2) ∧
+    (∀ x y, Edge (verticesEdgesToUgraph vs es) x y ↔ (x, y) ∈ es) :=
+  ⟨(vetu_spec vs es).2, fun _ => vetu_vertices, (vetu_spec vs es).1⟩
+
+/-- `add_vertices/3` with the proposed repair (`sort/2` for `msort_/2`), any list of vertices. -/
+theorem C53_add_vertices_fixed {g : Graph} (hg : WF g) (vs : List Nat) :
+    WF (addVerticesFixed g vs) ∧ (∀ v, v ∈ vertices (addVerticesFixed g vs) ↔ v ∈ vertices g ∨ v ∈ vs) ∧
+    ∀ x y, Edge (addVerticesFixed g vs) x y ↔ Edge g x y :=
+  addVerticesFixed_spec hg vs
+
+/-- `add_vertices/3` as written in the library. Missing: lists with a repeated vertex, on which
+    the library returns an ill-formed graph (finding C53-2; see the `example` below). -/
+theorem C53_add_vertices_partial {g : Graph} (hg : WF g) {vs : List Nat} (hnd : vs.Nodup) :
+    WF (addVertices g vs) ∧ (∀ v, v ∈ vertices (addVertices g vs) ↔ v ∈ vertices g ∨ v ∈ vs) ∧
+    ∀ x y, Edge (addVertices g vs) x y ↔ Edge g x y := by
+  rw [addVertices_eq_fixed g hnd]; exact addVerticesFixed_spec hg vs
+
+/-- `del_vertices/3` with the proposed repair, any list of vertices (present or not, repeated). -/
+theorem C53_del_vertices_fixed {g : Graph} (hg : WF g) (vs : List Nat) :
+    WF (delVerticesFixed g vs) ∧ (∀ v, v ∈ vertices (delVerticesFixed g vs) ↔ v ∈ vertices g ∧ v ∉ vs) ∧
+    ∀ x y, Edge (delVerticesFixed g vs) x y ↔ Edge g x y ∧ x ∉ vs ∧ y ∉ vs :=
+  delVerticesFixed_spec hg vs
+
+/-- `del_vertices/3` as written in the library. Missing: lists that mention a vertex which is
+    not in the graph — then a later listed vertex may survive (finding C53-1; `example` below). -/
+theorem C53_del_vertices_partial {g : Graph} (hg : WF g) {vs : List Nat} (hsub : ∀ v ∈ vs, v ∈ vertices g) :
+    WF (delVertices g vs) ∧ (∀ v, v ∈ vertices (delVertices g vs) ↔ v ∈ vertices g ∧ v ∉ vs) ∧
+    ∀ x y, Edge (delVertices g vs) x y ↔ Edge g x y ∧ x ∉ vs ∧ y ∉ vs := by
+  rw [delVertices_eq_fixed hg.keys hsub]; exact delVerticesFixed_spec hg vs
+
+/-- `add_edges/3`, any list of edges: the endpoints become vertices, the edges are added. -/
+theorem C53_add_edges {g : Graph} (hg : WF g) (es : List (Nat × Nat)) :
+    WF (addEdges g es) ∧
+    (∀ v, v ∈ vertices (addEdges g es) ↔ v ∈ vertices g ∨ ∃ e ∈ es, v = e.1 ∨ v = e.2) ∧
+    ∀ x y, Edge (addEdges g es) x y ↔ Edge g x y ∨ (x, y) ∈ es :=
+  addEdges_spec hg es
+
+/-- `del_edges/3`, any list of edges: no vertex is removed, exactly the listed edges disappear. -/
+theorem C53_del_edges {g : Graph} (hg : WF g) (es : List (Nat × Nat)) :
+    WF (delEdges g es) ∧ vertices (delEdges g es) = vertices g ∧
+    ∀ x y, Edge (delEdges g es) x y ↔ Edge g x y ∧ (x, y) ∉ es :=
+  delEdges_spec hg es
+
+/-- `ugraph_union/3`. -/
+theorem C53_ugraph_union {g1 g2 : Graph} (h1 : WF g1) (h2 : WF g2) :
+    WF (ugraphUnion g1 g2) ∧ (∀ v, v ∈ vertices (ugraphUnion g1 g2) ↔ v ∈ vertices g1 ∨ v ∈ vertices g2) ∧
+    ∀ x y, Edge (ugraphUnion g1 g2) x y ↔ Edge g1 x y ∨ Edge g2 x y :=
+  ugraphUnion_spec h1 h2
+
+/-- `transpose_ugraph/2`: same vertices, every edge reversed; in particular `edges` of the
+    transpose are exactly the swapped edges. -/
+theorem C53_transpose {g : Graph} (hg : WF g) :
+    WF (transposeUgraph g) ∧ vertices (transposeUgraph g) = vertices g ∧
+    (∀ x y, Edge (transposeUgraph g) x y ↔ Edge g y x) ∧
+    (∀ x y, (x, y) ∈ edges (transposeUgraph g) ↔ (y, x) ∈ edges g) :=
+  ⟨(vetu_spec _ _).2, transpose_vertices hg, fun _ _ => transpose_edge,
+   fun _ _ => by rw [mem_edges, mem_edges, transpose_edge]⟩
+
+/-- `neighbours/3` (`neighbors/3`): fails exactly on non-vertices; otherwise returns the ordered
+    set of successors. -/
+theorem C53_neighbours {g : Graph} (hg : WF g) (v : Nat) :
+    (neighbours v g = none ↔ v ∉ vertices g) ∧
+    ∀ ns, neighbours v g = some ns → Sorted ns ∧ ∀ y, y ∈ ns ↔ Edge g v y := by
+  refine ⟨neighbours_eq_none, fun ns h => ⟨hg.nbrs _ (neighbours_some_mem h), fun y => ?_⟩⟩
+  rw [edge_iff_neighbours hg.keys]; simp [h]
+
+/-- `compose/3`: relational composition on the union of the vertex sets. -/
+theorem C53_compose {g1 g2 : Graph} (h1 : WF g1) (h2 : WF g2) :
+    WF (compose g1 g2) ∧ (∀ v, v ∈ vertices (compose g1 g2) ↔ v ∈ vertices g1 ∨ v ∈ vertices g2) ∧
+    ∀ x z, Edge (compose g1 g2) x z ↔ ∃ y, Edge g1 x y ∧ Edge g2 y z :=
+  compose_spec h1 h2
+
+/-- `complement/2`: same vertices; `x → y` iff `x ≠ y` are vertices and `x → y` is not an edge. -/
+theorem C53_complement {g : Graph} (hg : WF g) :
+    WF (complement g) ∧ vertices (complement g) = vertices g ∧
+    ∀ x y, Edge (complement g) x y ↔ x ∈ vertices g ∧ y ∈ vertices g ∧ x ≠ y ∧ ¬ Edge g x y :=
+  complement_spec hg
+
+/-- `transitive_closure/2` (Warshall): succeeds, keeps the vertices, and its edge relation is
+    exactly the transitive closure `TransGen (Edge g)` (paths of length ≥ 1). -/
+theorem C53_transitive_closure {g : Graph} (hg : WF g) :
+    ∃ c, transitiveClosure g = some c ∧ WF c ∧ vertices c = vertices g ∧
+      ∀ a b, Edge c a b ↔ TransGen (Edge g) a b :=
+  transitiveClosure_spec hg
+
+/-- Consequently the closure is transitive, contains the graph, and is contained in every
+    transitive relation that contains the graph (it is the least one). -/
+theorem C53_transitive_closure_least {g c : Graph} (hg : WF g) (hc : transitiveClosure g = some c) :
+    (∀ x y z, Edge c x y → Edge c y z → Edge c x z) ∧ (∀ x y, Edge g x y → Edge c x y) ∧
+    ∀ T : Nat → Nat → Prop, (∀ x y z, T x y → T y z → T x z) → (∀ x y, Edge g x y → T x y) →
+      ∀ x y, Edge c x y → T x y := by
+  obtain ⟨c', hc', _, _, hE⟩ := transitiveClosure_spec hg
+  rw [hc] at hc'; cases hc'
+  refine ⟨fun x y z h1 h2 => (hE x z).2 (((hE x y).1 h1).trans ((hE y z).1 h2)),
+    fun x y e => (hE x y).2 (.single e), fun T ht hsub x y e => ?_⟩
+  have := (hE x y).1 e
+  clear e
+  induction this with
+  | single e => exact hsub _ _ e
+  | tail _ e ih => exact ht _ _ _ ih (hsub _ _ e)
+
+/-- `reachable/3` from a vertex: succeeds with the ordered set of vertices related to it by the
+    reflexive-transitive closure of the edge relation (the loop bound of the model is not hit). -/
+theorem C53_reachable {g : Graph} (hg : WF g) {v : Nat} (hv : v ∈ vertices g) :
+    ∃ out, reachable v g = some out ∧ Sorted out ∧ ∀ x, x ∈ out ↔ ReflTransGen (Edge g) v x :=
+  reachable_spec hg hv
+
+/-- `reachable/3` from a non-vertex fails. -/
+theorem C53_reachable_not_vertex {g : Graph} {v : Nat} (hv : v ∉ vertices g) : reachable v g = none :=
+  reachable_none hv
+
+/-- `top_sort/2`, soundness: any answer is a permutation of the vertices in which the source of
+    every edge occurs strictly before its target. -/
+theorem C53_top_sort_sound {g : Graph} (hg : WF g) {L : List Nat} (h : topSort g = some L) :
+    L.Perm (vertices g) ∧ ∀ pre v post, L = pre ++ v :: post → ∀ u, Edge g u v → u ∈ pre :=
+  topSort_sound hg h
+
+/-- `top_sort/2`, completeness: on an acyclic graph it succeeds (connected or not; the loop
+    bound of the model is not hit). -/
+theorem C53_top_sort_complete {g : Graph} (hg : WF g) (hac : ∀ v, ¬ TransGen (Edge g) v v) :
+    ∃ L, topSort g = some L :=
+  topSort_complete hg hac
+
+/-- `top_sort/2` succeeds exactly on the acyclic graphs. -/
+theorem C53_top_sort_iff_acyclic {g : Graph} (hg : WF g) :
+    (∃ L, topSort g = some L) ↔ ∀ v, ¬ TransGen (Edge g) v v :=
+  ⟨fun ⟨_, h⟩ => acyclic_of_topSort hg h, topSort_complete hg⟩
+
+/-! ## non-vacuity: hypotheses are satisfiable, branches are reached -/
+
+/-- the doc example of `vertices/2` is well-formed. -/
+example : WF [(1, [3, 5]), (2, [4]), (3, []), (4, [5]), (5, [])] := by
+  refine wf_iff.2 ⟨by simp [Sorted], by simp [Sorted], ?_⟩
+  intro x y; simp; omega
+
+-- top_sort: an acyclic graph is ordered (the stack order of the library), a cycle / a loop fails
+example : topSort [(1, [2]), (2, []), (3, [1])] = some [3, 1, 2] := by decide
+example : topSort [(1, [2]), (2, [1])] = none := by decide
+example : topSort [(1, [1])] = none := by decide
+example : topSort [(1, []), (2, [])] = some [1, 2] := by decide
+
+-- Warshall adds the path 1 → 3, and the loop of a cycle
+example : transitiveClosure [(1, [2]), (2, [3]), (3, [])] = some [(1, [2, 3]), (2, [3]), (3, [])] := by
+  simp [transitiveClosure, warshall, warshallStep, neighbours, ordUnion]
+example : transitiveClosure [(1, [2]), (2, [1])] = some [(1, [1, 2]), (2, [1, 2])] := by
+  simp [transitiveClosure, warshall, warshallStep, neighbours, ordUnion]
+
+-- reachable: from a vertex, and failure from a non-vertex
+example : reachable 1 [(1, [3]), (2, [1]), (3, [])] = some [1, 3] := by
+  simp [reachable, reachableLoop, neighbours, ordUnionNew, consFst]
+example : reachable 7 [(1, [3]), (2, [1]), (3, [])] = none := by
+  simp [reachable, reachableLoop, neighbours]
+
+/-- finding C53-1: the library's `del_vertices/3` keeps vertex 2 when the list also names the
+    absent vertex 1; the repaired algorithm removes it. -/
+example : delVertices [(2, []), (3, [2])] [1, 2] = [(2, []), (3, [])] ∧
+    delVerticesFixed [(2, []), (3, [2])] [1, 2] = [(3, [])] := by
+  simp [delVertices, delVerticesFixed, delVerticesAux, delVerticesAuxFixed, delRemaining, sortNat, sortSet,
+    insertSet, natLt, ordSubtract]
+
+/-- finding C53-2: the library's `add_vertices/3` duplicates a vertex that is listed twice; the
+    result is not a well-formed graph. -/
+example : addVertices [] [1, 1] = [(1, []), (1, [])] ∧ ¬ WF (addVertices [] [1, 1]) ∧
+    addVerticesFixed [] [1, 1] = [(1, [])] := by
+  have h1 : addVertices [] [1, 1] = [(1, []), (1, [])] := by
+    simp [addVertices, msortNat, insertDup, addVerticesToSGraph, addEmptyVertices]
+  refine ⟨h1, fun h => ?_, ?_⟩
+  · have := h.keys
+    simp [h1, Sorted] at this
+  · simp [addVerticesFixed, sortNat, sortSet, insertSet, natLt, addVerticesToSGraph, addEmptyVertices]
+
 end Scryer.UGraph
